@@ -60,13 +60,15 @@ pub async fn start_endpoint(
     authenticator: Option<Arc<dyn Authenticator>>,
     clients: Vec<(String, String)>,
     protocols: (bool, bool, bool),
-    tweak: impl FnOnce(SettingsBuilder) -> SettingsBuilder + 'static,
+    tweak: impl FnOnce(SettingsBuilder) -> SettingsBuilder + Send + 'static,
 ) -> Endpoint {
     let port = free_port(listen.contains(':'));
     let addr_s = format!("{}:{}", listen, port);
-    let mut opts = env::CtxOpts { listen: addr_s.clone(), clients, h1: protocols.0, h2: protocols.1, quic: protocols.2, ..Default::default() };
-    opts.tweak = Some(Box::new(tweak));
-    let settings = env::build_settings(&mut opts);
+    let settings = {
+        let mut opts = env::CtxOpts { listen: addr_s.clone(), clients, h1: protocols.0, h2: protocols.1, quic: protocols.2, ..Default::default() };
+        opts.tweak = Some(Box::new(tweak));
+        env::build_settings(&mut opts)
+    };
     let (hosts_settings, certs) = build_hosts(dir, hosts);
     let ctx = Arc::new(Ctx::new(settings, authenticator, hosts_settings).expect("ctx"));
     let c2 = ctx.clone();
